@@ -4,6 +4,10 @@ lean/MpModel/SpecRef.lean (soundness: MpProofs/SpecRef*.lean, Props/C18.lean, C1
 
 Tie T2 (values): structured generator -> real mpmath function through the public `mp` API (in worker subprocesses
 with a hard per-call timeout) -> exact output -> `mpdrv spec/specc` decides |y - ref| <= 2^(7-p)|ref| rigorously.
+Second reference layer (lean/MpModel/SpecRef2.lean, ops `spec2/specc2/sref2`; soundness MpProofs/SpecRef2.lean,
+Props/C19b.lean, Props/C22b.lean): non-terminating pFq series (exact partial sum + checked geometric tail bound),
+zeta(n)/altzeta(n) at integers n proportional to the precision (direct sum + tail bound, odd n included), negative
+integer degrees of legendre/chebyt/chebyu.
 Tie T1 (decision logic): gammaprod pole counting, hypsum's ZeroDivisionError test, _convert_param, bit-exact.
 
 usage:  special_ops.py <C18|C19|C22|all> [ncases] [seed]
@@ -252,10 +256,11 @@ def param_arg(p, q, r, tuples=True):
 
 
 class Case:
-    __slots__ = ("fn", "args", "prec", "fam", "dargs", "tag", "ctype", "timeout")
+    __slots__ = ("fn", "args", "prec", "fam", "dargs", "tag", "ctype", "timeout", "op2")
 
-    def __init__(self, fn, args, prec, fam, dargs, tag, ctype=False, timeout=None):
+    def __init__(self, fn, args, prec, fam, dargs, tag, ctype=False, timeout=None, op2=False):
         self.fn, self.args, self.prec, self.fam, self.dargs, self.tag, self.ctype, self.timeout = fn, args, prec, fam, dargs, tag, ctype, timeout
+        self.op2 = op2      # decided by the `spec2/specc2/sref2` ops (MpModel/SpecRef2.lean)
 
 
 # --------------------------------------------------------------------------------------
@@ -368,9 +373,86 @@ def gen_unit_dyadic(r):
     return r.choice([1, -1, 3]), 1 << k
 
 
+
+# --------------------------------------------------------------------------------------
+# C19: integer arguments at the precision-proportional switch-overs of mpf_zeta_int / mpf_zeta / mpc_zeta
+# --------------------------------------------------------------------------------------
+_ZETA_RATIOS = None
+
+
+def zeta_switch_ratios():
+    """the ratios c for which the zeta code of libmp/gammazeta.py switches algorithm at s ~ c*wp: every numeric literal
+    in mpf_zeta_int, mpf_zeta, mpc_zeta that multiplies / divides / is compared with a precision-like quantity, read
+    from the source of the tree under test with `ast` (c and 1/c, kept when in [0.03, 1.25]); plus c = 1 and c = 1/2 for
+    the literal-free tests `s >= wp` and `wp - s*2`.  Returns a sorted list of Fractions."""
+    global _ZETA_RATIOS
+    if _ZETA_RATIOS is not None:
+        return _ZETA_RATIOS
+    import ast
+    from fractions import Fraction
+    from common import REPO
+    src = open(os.path.join(REPO, "mpmath", "libmp", "gammazeta.py")).read()
+    tree = ast.parse(src)
+    lits = set()
+    for node in tree.body:
+        if isinstance(node, ast.FunctionDef) and node.name in ("mpf_zeta_int", "mpf_zeta", "mpc_zeta"):
+            for sub in ast.walk(node):
+                if isinstance(sub, (ast.BinOp, ast.Compare)):
+                    sides = [sub.left, sub.right] if isinstance(sub, ast.BinOp) else [sub.left] + list(sub.comparators)
+                    names = {x.id for sd in sides for x in ast.walk(sd) if isinstance(x, ast.Name)}
+                    if not any(("prec" in x.lower() or x in ("wp", "s", "m", "n")) for x in names):
+                        continue
+                    for sd in sides:
+                        if isinstance(sd, ast.Constant) and isinstance(sd.value, (int, float)) and not isinstance(sd.value, bool):
+                            lits.add(Fraction(str(sd.value)))
+    out = {Fraction(1), Fraction(1, 2)}
+    for v in lits:
+        for c in ([v, 1 / v] if v else []):
+            if Fraction(3, 100) <= c <= Fraction(5, 4):
+                out.add(c)
+    _ZETA_RATIOS = sorted(out)
+    return _ZETA_RATIOS
+
+
+ZETA_SWITCH_PRECS = [100, 160, 250, 300, 333, 400, 500, 640, 800, 1000, 1200]
+
+
+def zetasum_feasible(s, prec):
+    """the direct-sum enclosure of MpModel/SpecRef2.lean (zetaEncl) needs at most 2^13 terms at the first working precision"""
+    return s >= 2 and (prec + 32 + 2 + (s - 2)) // (s - 1) <= 13
+
+
+def gen_zeta_switch(r, quick, ct):
+    """zeta(n) / altzeta(n), integer n = c*wp + d for a switch-over ratio c of the code (wp = p + 20 and wp = p), small d
+    of both signs, or n strictly between two consecutive switch-overs; p in 100..1200"""
+    from fractions import Fraction
+    ratios = zeta_switch_ratios()
+    p = r.choice(ZETA_SWITCH_PRECS)
+    fn = "altzeta" if r.random() < 0.25 else "zeta"
+    i = r.randrange(len(ratios))
+    c = ratios[i]
+    wp = p + r.choice([20, 20, 20, 0, 40])
+    if r.random() < 0.7:
+        n = int(c * wp) + r.choice([-3, -2, -1, 0, 0, 1, 1, 2, 3, 5, 8])
+        tag = "n~%.3f*wp" % float(c)
+    else:
+        c2 = ratios[i + 1] if i + 1 < len(ratios) else c * Fraction(5, 4)
+        n = r.randint(int(c * wp), max(int(c * wp), int(c2 * wp)))
+        tag = "n in (%.3f,%.3f)*wp" % (float(c), float(c2))
+    if r.random() < 0.6:
+        n += n & 1       # the closed form decides even n when the direct sum needs too many terms
+    n = max(2, n)
+    a = ["mpc", n, 0] if ct else (["int", n] if r.random() < 0.5 else ["mpf", n, 0])
+    if zetasum_feasible(n, p):
+        return Case(fn, [a], p, fn + "sum", [n], tag, ct, op2=True)
+    return Case(fn, [a], p, fn, [n], tag + " (closed form)", ct)
+
+
 def gen_C19(r, quick):
-    fn = r.choice(["zeta", "zeta", "altzeta", "hurwitz", "bernpoly", "bernpoly", "eulerpoly", "polylog", "polylog"])
+    fn = r.choice(["zeta", "zeta", "altzeta", "hurwitz", "bernpoly", "bernpoly", "eulerpoly", "polylog", "polylog", "zeta-switch"])
     ct = r.random() < 0.25
+    if fn == "zeta-switch":
+        return gen_zeta_switch(r, quick, ct)
     if fn in ("zeta", "altzeta"):
         c = r.random()
         if c < 0.45:
@@ -433,11 +515,114 @@ def gen_z(r):
     return rand_dyadic(r, -3000, 3000, 2)
 
 
+
+# --------------------------------------------------------------------------------------
+# C22: non-terminating series (decided by the exact partial sum + checked geometric tail bound of SpecRef2.hypEncl)
+# --------------------------------------------------------------------------------------
+LN2_NUM, LN2_DEN = 45426, 65536      # ~ ln 2 (only used to CHOOSE arguments)
+
+
+def rand_param(r, lo=-6, hi=12, positive=False):
+    """a rational parameter that is not a non-positive integer"""
+    while True:
+        pq = rand_rat(r, 0 if positive else lo, hi)
+        if pq[0] % pq[1] == 0 and pq[0] <= 0:
+            continue
+        if positive and pq[0] <= 0:
+            continue
+        return pq
+
+
+def gen_hypser(r, quick, ct):
+    """pFq with no non-positive integer parameter (the series does not terminate):
+    * 1F1(b+m; b; z), m = 0..4 (Kummer: e^z times a polynomial) and generic 1F1, 0F1, 1F2, 2F2, pFp at z < 0 of large
+      magnitude: the sum is 2^-L times its largest term / its first term, L ('lost bits') uniform in 2..130, i.e. the whole
+      range of hypsum's cancellation detection and retry loop (extraprec 50 -> 105 -> 215), up to and beyond the switch
+      to the asymptotic expansion (|z| >= 64 for 1F1); also z > 0 and small |z|;
+    * Gauss type 2F1, 1F0, 3F2 at dyadic |z| <= 3/4."""
+    from fractions import Fraction
+    shape = r.choice(["kummer", "kummer", "kummer", "1F1", "0F1", "1F2", "2F2", "2F1", "2F1", "1F0", "3F2"])
+    p = pick_prec(r, quick, big=True)
+    if shape == "kummer":
+        b = rand_param(r, positive=True)
+        m = r.choice([0, 1, 1, 2, 2, 3, 4])
+        A, B = [(b[0] + m * b[1], b[1])], [b]
+    elif shape == "1F1":
+        A, B = [rand_param(r)], [rand_param(r)]
+    elif shape == "0F1":
+        A, B = [], [rand_param(r)]
+    elif shape == "1F2":
+        A, B = [rand_param(r)], [rand_param(r), rand_param(r)]
+    elif shape == "2F2":
+        A, B = [rand_param(r), rand_param(r)], [rand_param(r), rand_param(r)]
+    elif shape == "2F1":
+        A, B = [rand_param(r), rand_param(r)], [rand_param(r)]
+    elif shape == "1F0":
+        A, B = [rand_param(r)], []
+    else:
+        A, B = [rand_param(r), rand_param(r), rand_param(r)], [rand_param(r), rand_param(r)]
+    na, nb = len(A), len(B)
+    if na == nb + 1:
+        k = r.choice([1, 2, 3, 4, 6])
+        den = 1 << k
+        zn, zd = r.randint(-(3 * den) // 4, (3 * den) // 4), den
+        ztag = "|z|<=3/4"
+    else:
+        c = r.random()
+        L = r.randint(2, 130)
+        if nb - na == 0:
+            x8 = L * LN2_NUM * 8 // LN2_DEN                 # x = L ln 2: e^-x = 2^-L
+        else:
+            h = L * LN2_NUM * 8 // LN2_DEN                  # 2 sqrt(x) ~ L ln 2 (Bessel-type growth e^(2 sqrt x))
+            x8 = h * h // 32
+            x8 = min(x8, 8 * 4000)
+        x8 = max(x8, 1)
+        if r.random() < 0.5:
+            x8 = (x8 // 8) * 8 or 8                          # integer argument
+        if c < 0.7:
+            zn, zd, ztag = -x8, 8, "z<0 lost bits %s" % ("<20" if L < 20 else "20-50" if L < 50 else "50-100" if L < 100 else ">=100")
+        elif c < 0.85:
+            zn, zd, ztag = x8, 8, "z>0"
+        else:
+            zn, zd = rand_dyadic(r, -2, 2, 6)
+            ztag = "|z|<=2"
+    fname = {(1, 1): "hyp1f1", (0, 1): "hyp0f1", (1, 2): "hyp1f2", (2, 2): "hyp2f2", (2, 1): "hyp2f1", (1, 0): "hyper",
+             (3, 2): "hyp3f2"}[(na, nb)]
+    fn = fname if r.random() < 0.75 else "hyper"
+    dargs = [na]
+    for (a, b) in A:
+        f = Fraction(a, b); dargs += [f.numerator, f.denominator]
+    dargs.append(nb)
+    for (a, b) in B:
+        f = Fraction(a, b); dargs += [f.numerator, f.denominator]
+    f = Fraction(zn, zd)
+    dargs += [f.numerator, f.denominator]
+    Aa = [param_arg(a, b, r) for (a, b) in A]
+    Ba = [param_arg(a, b, r) for (a, b) in B]
+    za = real_arg(zn, zd, ct)
+    args = [["list", Aa], ["list", Ba], za] if fn == "hyper" else Aa + Ba + [za]
+    return Case(fn, args, p, "hypser", dargs, "%s %s" % (shape, ztag), ct, timeout=20, op2=True)
+
+
+def gen_small_x(r, p):
+    """x = 0 exactly, or a tiny x with a full-length mantissa (between 2^-30 and far below 2^(-2p)), either sign"""
+    c = r.random()
+    if c < 0.4:
+        return 0, 1, "x=0"
+    nb = r.choice([p, 53, 24, 3])
+    man = (1 << (nb - 1)) | r.getrandbits(nb - 1) | 1
+    e = r.choice([r.randint(25, 60), r.randint(30, p + 40), r.randint(p + 12, 2 * p + 9), r.randint(2 * p + 12, 3 * p + 40)])
+    return r.choice([1, -1]) * man, 1 << (e + nb), "x tiny"
+
+
 def gen_C22(r, quick):
     fn = r.choice(["hyp2f1", "hyp2f1", "hyp1f1", "hyp1f1", "hyp2f0", "hyp3f2", "hyper", "hyper",
-                   "legendre", "chebyt", "chebyu", "hermite", "laguerre", "gegenbauer", "jacobi"])
+                   "legendre", "chebyt", "chebyu", "hermite", "laguerre", "gegenbauer", "jacobi",
+                   "hypser", "hypser", "hypser", "legendre", "negdeg"])
     ct = r.random() < 0.2
     p = pick_prec(r, quick)
+    if fn == "hypser":
+        return gen_hypser(r, quick, ct)
     if fn in ("hyp2f1", "hyp1f1", "hyp2f0", "hyp3f2", "hyper"):
         n = r.choice([r.randint(0, 6), r.randint(0, 40), r.randint(40, 150)])
         if fn == "hyp2f1":
@@ -505,6 +690,20 @@ def gen_C22(r, quick):
     else:
         xn, xd = rand_dyadic(r, -30, 30, 4)
         xt = "|x| up to 30"
+    negdeg = fn == "negdeg" or (fn in ("legendre", "chebyt", "chebyu") and r.random() < 0.35)
+    if negdeg:
+        # negative integer degree of the families whose representation has a reflection symmetry
+        # (P_n = P_{-n-1}, T_{-n} = T_n, U_{-n-2} = -U_n), at x = 0 / tiny / ordinary
+        if fn == "negdeg":
+            fn = r.choice(["legendre", "legendre", "chebyt", "chebyu"])
+        n = -r.choice([r.randint(1, 8), r.randint(1, 42), r.randint(42, 201)])
+        if r.random() < 0.5:
+            xn, xd, xt = gen_small_x(r, p)
+        from fractions import Fraction
+        fx = Fraction(xn, xd)
+        xa = real_arg(xn, xd, ct)
+        na = ["int", n] if r.random() < 0.7 else ["mpf", n, 0]
+        return Case(fn, [na, xa], p, fn, [n, fx.numerator, fx.denominator], xt + " n<0", ct, timeout=20, op2=True)
     xa = real_arg(xn, xd, ct)
     nt = "n<=40" if n <= 40 else "n>40"
     if fn in ("legendre", "chebyt", "chebyu", "hermite"):
@@ -544,15 +743,16 @@ def run_values(pid, n, seed, quick, nworkers=6, budget=None):
     for i, c in enumerate(cases):
         res = results.get(i, {"status": "not-run"})
         da = " ".join(str(x) for x in c.dargs)
+        o2 = "2" if c.op2 else ""
         if res["status"] == "ok" and res["val"]["t"] == "mpf" and not _is_special(res["val"]["v"]):
             s, m, e, b = res["val"]["v"]
-            lines.append("spec %s %s | %d %d %d %d" % (c.fam, da, -m if s else m, e, c.prec, SLACK))
+            lines.append("spec%s %s %s | %d %d %d %d" % (o2, c.fam, da, -m if s else m, e, c.prec, SLACK))
         elif res["status"] == "ok" and res["val"]["t"] == "mpc" and not _is_special(res["val"]["v"]) and not _is_special(res["val"]["w"]):
             s, m, e, b = res["val"]["v"]
             s2, m2, e2, b2 = res["val"]["w"]
-            lines.append("specc %s %s | %d %d %d %d %d %d" % (c.fam, da, -m if s else m, e, -m2 if s2 else m2, e2, c.prec, SLACK))
+            lines.append("specc%s %s %s | %d %d %d %d %d %d" % (o2, c.fam, da, -m if s else m, e, -m2 if s2 else m2, e2, c.prec, SLACK))
         else:
-            lines.append("sref %s %s | 8" % (c.fam, da))    # only to learn pole / outside / value
+            lines.append("sref%s %s %s | 8" % (o2, c.fam, da))    # only to learn pole / outside / value
         idx.append(i)
     answers = ask_driver(lines)
     # the property says "relative error below 2^(8-p)":  `ok` at slack 7 proves it;  only `violates` at slack 8
@@ -568,7 +768,7 @@ def run_values(pid, n, seed, quick, nworkers=6, budget=None):
     for i, c in enumerate(cases):
         res = results.get(i, {"status": "not-run"})
         ans = answers[i]
-        fam = c.fam if c.fn == c.fam or c.fam != "hyper" else "hyper:" + c.fn
+        fam = c.fam if c.fn == c.fam or c.fam not in ("hyper", "hypser") else c.fam + ":" + c.fn
         pf = st["per_family"].setdefault(fam, {"calls": 0, "ok": 0, "outside": 0, "undecided": 0, "pole": 0, "timeout": 0, "violates": 0, "complex_typed": 0})
         pf["calls"] += 1
         if c.ctype:
@@ -655,6 +855,8 @@ SITES = {
     "zeta": "zeta.zeta", "altzeta": "zeta.altzeta", "bernpoly": "zeta.bernpoly", "eulerpoly": "zeta.eulerpoly",
     "polylog": "zeta.polylog", "hyp2f1": "hypergeometric.hyp2f1", "hyp1f1": "hypergeometric.hyp1f1",
     "hyp2f0": "hypergeometric.hyp2f0", "hyp3f2": "hypergeometric.hyper", "hyper": "hypergeometric.hyper",
+    "hyp0f1": "hypergeometric.hyp0f1", "hyp1f2": "hypergeometric.hyp1f2", "hyp2f2": "hypergeometric.hyp2f2",
+
     "legendre": "orthogonal.legendre", "chebyt": "orthogonal.chebyt", "chebyu": "orthogonal.chebyu",
     "hermite": "orthogonal.hermite", "laguerre": "orthogonal.laguerre", "gegenbauer": "orthogonal.gegenbauer",
     "jacobi": "orthogonal.jacobi",
@@ -691,6 +893,10 @@ def site_of(c):
         return base + "[negative-integer-parameter]"
     if c.fam == "laguerre" and npint(c.dargs[1], c.dargs[2], True):
         return base + "[negative-integer-parameter]"
+    if c.fam == "hypser":
+        return base + "[non-terminating]"
+    if c.fam == "legendre" and c.dargs[0] < 0:
+        return base + "[n<0]"
     return base
 
 
@@ -862,12 +1068,23 @@ RULES = {
     "C19": "seeded structured generator over zeta (even s <= 320, s = 0, negative integers >= -260, the pole s = 1, odd s as `outside`), "
            "altzeta at the same points, Hurwitz zeta(2k, a) at integers a <= 3000, bernpoly/eulerpoly (n <= 120, dyadic x small, special, "
            "large), polylog (s = 1 and s = -n <= 0 at dyadic |z| < 1 incl. z near 0 and near +-1; s = 2k at z = 1; generic s as `outside`); "
-           "precisions 10..2000; 25% complex-typed. Non-trivial = decided by the driver against the exact value.",
+           "precisions 10..2000; 25% complex-typed. Non-trivial = decided by the driver against the exact value. "
+           "Switch-over class (10% of the cases): zeta(n)/altzeta(n) at integers n = c*wp + d, wp in {p, p+20, p+40}, d in -3..8, and n "
+           "between consecutive switch-overs, for every ratio c (and 1/c) that occurs as a numeric literal next to a precision-like "
+           "name in mpf_zeta_int / mpf_zeta / mpc_zeta (read from the tree under test with ast: 1/30, 1/20, 0.1, 0.2, 1/2.54, 0.431, "
+           "plus 1/2 and 1), p in 100..1200, even and odd n, decided against the direct-sum enclosure of zeta(n) (<= 2^13 terms) "
+           "or, when that needs more terms, the closed form for even n.",
     "C22": "seeded structured generator over terminating hyp2f1, hyp1f1, hyp2f0, hyp3f2 and hyper() with (p,q) up to (4,3): -n <= 150, "
            "rational parameters as int / exact mpf / (p,q) tuples / 'p/q' strings, non-positive integer denominators on both sides of the "
            "termination index (poles), dyadic z inside, on and outside the unit disk up to |z| = 3000; legendre, chebyt, chebyu, hermite, "
            "laguerre, gegenbauer, jacobi with degree <= 200 at dyadic x in (-1,1), at +-1, 0, and up to |x| = 30, dyadic a, b in [-3, 8]; "
-           "precisions 10..2000; 20% complex-typed arguments. Non-trivial = decided by the driver against the exact rational value.",
+           "precisions 10..2000; 20% complex-typed arguments. Non-trivial = decided by the driver against the exact rational value. "
+           "Non-terminating class (15% of the cases): 1F1(b+m; b; z) (m = 0..4, Kummer: e^z times a polynomial), generic 1F1, 0F1, 1F2, "
+           "2F2 at rational parameters (no non-positive integer) and dyadic z < 0 chosen so that the sum is 2^-L times its first "
+           "term, L uniform in 2..130 (hypsum's cancellation test and its retries at extraprec 50/105/215, |z| up to and beyond the "
+           "switch to the asymptotic expansion), z > 0, small |z|; 2F1, 1F0, 3F2 at dyadic |z| <= 3/4; precisions 10..1000; decided "
+           "against the exact rational partial sum with a checked geometric tail bound. Negative-degree class (8%): legendre, "
+           "chebyt, chebyu at integer degree -201..-1 with x = 0, tiny x with a full-length mantissa (2^-25 .. 2^(-3p-40)), ordinary x.",
 }
 
 
@@ -880,17 +1097,24 @@ ASSUMPTIONS = {
         "calls that exceed the per-call timeout give no result (counted in timeouts_no_result)",
     ],
     "C19": [
-        "PARTIAL: zeta at s <= 0 and even s >= 2 (integers), Hurwitz zeta(2k, a) at integers a >= 1, bernpoly/eulerpoly at dyadic x, "
-        "polylog(1, z), polylog(-n, z) for |z| < 1 and polylog(2k, 1) are decided; everything else (odd s, non-integer or complex s, "
+        "PARTIAL: zeta at s <= 0 and even s >= 2 (integers), zeta/altzeta at odd and even integers n >= 2 with n >= ~(p+34)/13 (direct "
+        "sum of at most 2^13 terms, Props/C19b.lean), Hurwitz zeta(2k, a) at integers a >= 1, bernpoly/eulerpoly at dyadic x, "
+        "polylog(1, z), polylog(-n, z) for |z| < 1 and polylog(2k, 1) are decided; everything else (small odd s, non-integer or complex s, "
         "derivatives, dirichlet, lerchphi, stieltjes, primezeta, siegeltheta, siegelz, riemannr, polylog with |z| >= 1) is NOT decided",
         "altzeta(s) := (1 - 2^(1-s)) zeta(s) and the Euler polynomials E_n(x) := 2/(n+1) (B_{n+1}(x) - 2^(n+1) B_{n+1}(x/2)) are "
         "definitions in terms of Mathlib's riemannZeta / Polynomial.bernoulli (Mathlib defines neither)",
         "a sampled (seeded, structured) set of arguments and precisions is validated; no theorem about mpmath's series code",
     ],
     "C22": [
-        "PARTIAL: only terminating pFq series at rational parameters / dyadic arguments and the seven polynomial families at natural "
-        "degree are decided; non-terminating evaluations, hyperu, Whittaker, Meijer G, Appell, hyper2d, legenp/legenq, spherharm, "
-        "parabolic cylinder functions are NOT decided",
+        "PARTIAL: terminating pFq series at rational parameters / dyadic arguments, the seven polynomial families at natural degree "
+        "(legendre, chebyt, chebyu at every integer degree), and NON-terminating pFq series with p <= q (any dyadic z) or p = q+1 "
+        "(|z| <= 3/4) at rational parameters none of which is a non-positive integer are decided; analytic continuation of "
+        "p = q+1 series beyond the disk, complex parameters/arguments, hyperu, Whittaker, Meijer G, Appell, hyper2d, legenp/legenq, "
+        "spherharm, parabolic cylinder functions are NOT decided",
+        "the value of a non-terminating pFq is DEFINED as the sum of its series (Props/C22b.lean: hypSeries; convergence is proved "
+        "for every decided case); no closed form or transformation formula is trusted (1F1(1;1;z) = e^z is proved as a sanity link)",
+        "legendre at negative integer degree is DEFINED by P_n := P_(-n-1) (Props/C22b.lean: legendrePZ, legendrePZ_reflect); chebyt/chebyu "
+        "at negative degree are Mathlib's integer-indexed Polynomial.Chebyshev.T/U",
         "chebyt/chebyu are Mathlib's Polynomial.Chebyshev.T/U; legendre, hermite, laguerre, gegenbauer, jacobi are DEFINED in "
         "Props/C22.lean by their three-term recurrences (Mathlib has none of them in this normalisation)",
         "at a pole of a terminating series (a denominator parameter -m with m below the termination index) an exception or an infinity "
@@ -902,7 +1126,7 @@ ASSUMPTIONS = {
 
 def check(pid, ctx):
     quick = ctx.quick
-    n = {"C18": 1200, "C19": 1000, "C22": 1000}[pid] if quick else {"C18": 40000, "C19": 30000, "C22": 30000}[pid]
+    n = {"C18": 1200, "C19": 1120, "C22": 1300}[pid] if quick else {"C18": 40000, "C19": 33000, "C22": 39000}[pid]
     st, fails, dis, samples = run_values(pid, n, ctx.seed, quick, nworkers=6, budget=60 if quick else 1500)
     cov = {
         "evaluations": st["evaluations"],
